@@ -292,7 +292,7 @@ def small(b):
 
 
 def op(name, p, q=None, c=None):
-    return {"op": name, "p": p, "q": q or [], "c": c or small([])}
+    return {"op": name, "p": p, "q": q or [], "c": c or small([]), "f": []}
 
 
 def scale_plans(tier, rng):
@@ -522,6 +522,12 @@ def run(tier):
         "transcription_satisfies_postcondition_in_model": model_ok, "vectors": len(vecs), "max_path_chars": maxlen,
         "model_conformance": not drift, "conforming_transcription": algo, "divergent_vectors": drift[:5], "divergent_count": len(drift)}
     chk.sample({"create_dir_all_vector": "".join(vecs[len(vecs) // 2]["raw"]), "predicted": vecs[len(vecs) // 2]["res"]})
+
+    # ---- 1b. the ReadDir window logic (getdents into 512 bytes), exhaustively for <= 6 entries of 4 name lengths
+    res = core.run_tlc("FsReadDir.tla", "FsReadDir.cfg", workers=4, timeout=900)
+    core.tlc_must_pass(res, "FsReadDir")
+    chk.add_tlc(res)
+    chk.extra["readdir_window_model_states"] = res.distinct
 
     # ---- 2. operation sequences generated by TLC
     inits, plans1, _ = gen_sequences(chk, "enum", 1, "all")
